@@ -973,6 +973,26 @@ where
             }
         }
     }
+    // compensated pair that keeps the SUM of the two column tests true but neither of them: v + delta with
+    // well-formedness - delta, columns and paths re-answered honestly for the positions this transcript selects,
+    // claimed value <v + delta, a>
+    if let (Some(wf), Ok(st)) = (&pf0.well_formedness, convert::<_, crate::mirror::MLinState<LFr>>(&c.states[0])) {
+        use super::c03_lin::{cols_paths, transcript, tree_of, Ctxt};
+        let cx = Ctxt::<S> { ck: &w.ck, cm: cm0.clone(), tree: tree_of(&st.leaves), st, z: z.clone(), pre: pre.clone() };
+        let delta: Vec<LFr> = (0..pf0.opening.v.len()).map(|_| LFr::rand(rng)).collect();
+        let v2: Vec<LFr> = pf0.opening.v.iter().zip(&delta).map(|(x, d)| *x + d).collect();
+        let wf2: Vec<LFr> = wf.iter().zip(&delta).map(|(x, d)| *x - d).collect();
+        let (a_vec, _) = L::tensor(&z, cm0.metadata.n_cols, cm0.metadata.n_rows);
+        let claim = inner(&v2, &a_vec);
+        let (_, idx) = transcript::<S, L>(&cx, Some(&wf2), &v2, false);
+        let (cols, paths) = cols_paths(&cx.st, &cx.tree, &idx);
+        let mut pf = pf0.clone();
+        pf.opening.v = v2;
+        pf.opening.columns = cols;
+        pf.opening.paths = paths;
+        pf.well_formedness = Some(wf2);
+        faults.push(("compensated:v+delta,well_formedness-delta".into(), cm0.clone(), z.clone(), claim, pf));
+    }
     // paths of OTHER leaves that carry an identical column: only the leaf-index test can tell them apart.
     // Built on the zero polynomial, whose encoded matrix has all columns equal.
     {
